@@ -63,6 +63,18 @@ def ll2crInGrid (g : Grid) (x y : Rat) : Bool :=
   let r := ll2crRow g y
   decide (-1 ≤ c) && decide (c ≤ (g.w : Rat) + 1) && decide (-1 ≤ r) && decide (r ≤ (g.h : Rat) + 1)
 
+/-- `utils._downcast_index_array` on one index: when the axis length fits a uint16, out-of-range
+indices are replaced by the marker `size` and the array is cast to uint16 (wrap-around mod 2^16) -/
+def downcast (idx : Int) (size : Nat) : Int :=
+  if size ≤ 65535 then
+    (if idx < 0 ∨ idx ≥ size then (size : Int) else idx) % 65536
+  else idx
+
+/-- `generate_quick_linesample_arrays` + `get_image_from_linesample` -/
+def quickLinesampleCell (g : Grid) (x y : Rat) : Option (Nat × Nat) :=
+  let p := linesample g x y
+  validCell g (downcast p.1 g.h) (downcast p.2 g.w)
+
 /-! ### driver -/
 open Wire
 
@@ -85,6 +97,8 @@ def handle : List String → Option String
         "ref=" ++ showCell (cellOf g x y),
         s!"ls={ls.1},{ls.2}",
         "lsc=" ++ showCell (linesampleCell g x y),
+        s!"qls={downcast ls.1 g.h},{downcast ls.2 g.w}",
+        "qlsc=" ++ showCell (quickLinesampleCell g x y),
         "gf=" ++ showCell (gridFilterCell g x y),
         s!"bk={b.1},{b.2}",
         s!"ar={showBool a.1.1},{a.1.2},{showBool a.2.1},{a.2.2}",
